@@ -313,12 +313,13 @@ func ExtractIndexAndValidateAction(rawJson []byte) (int, string, string) {
 			idVal = ""
 		}
 
-		idxVal, idxDType, _, err := jp.Get(val, INDEX_UNDER_STR)
-		if err != nil || idxDType != jp.String {
-			idxVal = []byte("")
+		// GetString (as for create and update) so that JSON escapes in the name are decoded
+		idxVal, err := jp.GetString(val, INDEX_UNDER_STR)
+		if err != nil {
+			idxVal = ""
 		}
 
-		return INDEX, string(idxVal), idVal
+		return INDEX, idxVal, idVal
 	}
 
 	val, dType, _, err = jp.Get(rawJson, CREATE_TOP_STR)
